@@ -78,6 +78,54 @@ def run_impl(k, n, script):
     return [v[1] for v in rs.value], rs.n, src.ranges
 
 
+def run_impl_iterators(k, n, script):
+    """like run_impl, but every observation is itself an iterator (a generator over a few values): it is ONE observation, kept or
+    dropped as a whole, never looked into. Returns (retained positions by identity, n, how many observations were advanced)"""
+    import generatorpipeline.accumulators as A
+    rs = A.ReservoirSampling(length=k)
+    src = Scripted(script)
+    old = A.random
+    A.random = src
+    obs = [iter([('inner', i, j) for j in range(i % 3)]) if i % 2 else (('inner', i, j) for j in range(1 + i % 2)) for i in range(n)]
+    try:
+        for o in obs:
+            rs.accumulate(o)
+    except Exception as e:  # noqa
+        return ['!%s' % type(e).__name__], -1, 0
+    finally:
+        A.random = old
+    pos = []
+    for v in rs.value:
+        hit = [i for i, o in enumerate(obs) if o is v]
+        pos.append(hit[0] if hit else 'foreign:%r' % (v,))
+    consumed = 0
+    for i, o in enumerate(obs):
+        left = list(o)
+        want = i % 3 if i % 2 else 1 + i % 2
+        consumed += len(left) != want
+    return pos, rs.n, consumed
+
+
+def run_impl_polled(k, n, script, polls):
+    """like run_impl, but `value` is read (once or twice) after the observations in `polls`; returns {i: reads} and the final result"""
+    import generatorpipeline.accumulators as A
+    rs = A.ReservoirSampling(length=k)
+    src = Scripted(script)
+    old = A.random
+    A.random = src
+    seen = {}
+    try:
+        for i in range(n):
+            rs.accumulate(('pos', i))
+            if i in polls:
+                seen[i] = [[v[1] for v in rs.value] for _ in range(polls[i])]
+    except Exception as e:  # noqa
+        return {}, ['!%s' % type(e).__name__], -1
+    finally:
+        A.random = old
+    return seen, [v[1] for v in rs.value], rs.n
+
+
 def check(ctx):
     rng = ctx.rng
     # (a) random scripts vs the model
@@ -106,6 +154,28 @@ def check(ctx):
             if (res2, cnt2) != (res, cnt):
                 ctx.fail('reservoir-none-observation', 'with None as observation %d the reservoir is %s (n=%s), with an ordinary object %s (n=%s)' % (
                     na, res2, cnt2, res, cnt), dict(case, none_at=na))
+        if n >= 1 and rng.random() < 0.5:
+            res4, cnt4, consumed = run_impl_iterators(k, n, draws)
+            ctx.count('iterator_observations')
+            if (res4, cnt4) != (res, cnt) or consumed:
+                ctx.fail('reservoir-looks-into-observation', 'with observations that are iterators the reservoir holds positions %s (n=%s, %d observations '
+                         'advanced); with ordinary objects %s (n=%s)' % (res4, cnt4, consumed, res, cnt), dict(case, observations='iterators'))
+        if n >= 2:
+            # an accumulator that is polled while it runs (live display) reports, each time, what an accumulator that saw only
+            # that prefix reports, and ends like the one that was never read
+            polls = {i: rng.choice([1, 1, 2]) for i in rng.sample(range(n), rng.randint(1, min(n, 4)))}
+            seen, res3, cnt3 = run_impl_polled(k, n, draws, polls)
+            ctx.count('polled_runs')
+            bad = None
+            for i, reads in sorted(seen.items()):
+                want = run_impl(k, i + 1, draws[:max(0, i + 1 - k)])[0]
+                if any(r != want for r in reads):
+                    bad = 'value read after observation %d is %s, an accumulator fed the same %d observations holds %s' % (i + 1, reads, i + 1, want)
+                    break
+            if bad is None and (res3, cnt3) != (res, cnt):
+                bad = 'after reads at %s the reservoir ends as %s (n=%s), unread it ends as %s (n=%s)' % (sorted(polls), res3, cnt3, res, cnt)
+            if bad:
+                ctx.fail('reservoir-reading-not-pure', bad, dict(case, polls={str(a): b for a, b in polls.items()}))
         if (cnt, res) != (int(mn), mres):
             ctx.disagree('reservoir-model-correspondence', case, dict(n=cnt, res=res), dict(n=int(mn), res=mres))
         if [tuple(r) for r in ranges] != mranges:
